@@ -9,8 +9,11 @@ import (
 
 // impls maps a case command to the function running it on the real code.
 var impls = map[string]func(string) string{
-	"idx.decode": implIdxDecode,
-	"idx.encode": implIdxEncode,
+	"idx.decode":     implIdxDecode,
+	"idx.encode":     implIdxEncode,
+	"chunk.all":      implChunkAll,
+	"chunk.buffered": implChunkBuffered,
+	"chunk.disc":     implChunkDisc,
 }
 
 type replayFile struct {
